@@ -11,7 +11,7 @@ A = 'mystic/abstract_solver.py::'
 MON = 'mystic/monitors.py::Monitor'
 
 
-def _solver(h, live=None, with_limits=True):
+def _solver(h, live=None, with_limits=True, cls=None):
     """a solver object in an arbitrary reachable state (fields by kind)"""
     n0 = h.int('nsteps')            # records in the step monitor
     h.assume('n0 >= 0', n0=n0)
@@ -46,7 +46,7 @@ def _solver(h, live=None, with_limits=True):
     wrapped = h.fn('WRAPPED', ret='real')
     fields['_cost'] = h.tup(wrapped, raw, None)
     fields['_live'] = h.bool('live') if live is None else live
-    s = h.obj(A + 'AbstractSolver', **fields)
+    s = h.obj(cls or (A + 'AbstractSolver'), **fields)
     return s, stepmon, fc
 
 
@@ -104,10 +104,10 @@ def _step_impl(h, holder, epoch):
     return h.fn('STEP', native=native)
 
 
-def _mk(h, live=None):
+def _mk(h, live=None, cls=None):
     epoch = {'n': 0}
     holder = {}
-    s, stepmon, fc = _solver(h, live)
+    s, stepmon, fc = _solver(h, live, cls=cls)
     holder['s'] = s
     h.set_field(s, '_termination', _termination(h, epoch))
     h.set_field(s, '_Step', _step_impl(h, holder, epoch))
@@ -129,6 +129,24 @@ def set_limits_default(h):
     env = dict(mi=mi, mf=mf, gens=gens, evals=fc, N=2, a=h.field(s, '_maxiter'), b=h.field(s, '_maxfun'))
     h.check('limits-are-ints-afterwards', 'isinstance(a, int) and isinstance(b, int)', **env)
     h.check('none-gives-default-star-counts-from-now', 'a == %(maxiter)s and b == %(maxfun)s' % LIMS, **env)
+
+
+def _limits_variant(h, cls, iterscale, evalscale):
+    """the solver-specific defaults: limit = nDim * nPop * scale (+ the current count for '*')"""
+    s, stepmon, fc, epoch = _mk(h, cls=cls)
+    mi, mf = h.field(s, '_maxiter'), h.field(s, '_maxfun')
+    gens = h.ev('max(0, n - 1)', n=h.len(h.field(stepmon, '_x')))
+    h.call(h.getattr(s, '_SetEvaluationLimits'))
+    env = dict(mi=mi, mf=mf, gens=gens, evals=fc, N=2, a=h.field(s, '_maxiter'), b=h.field(s, '_maxfun'), si=iterscale, se=evalscale)
+    h.check('limits-are-ints-afterwards', 'isinstance(a, int) and isinstance(b, int)', **env)
+    h.check('none-gives-the-solvers-default-star-counts-from-now',
+            "a == (N*si if mi is None else (N*si + gens if mi == '*' else mi)) and "
+            "b == (N*se if mf is None else (N*se + evals if mf == '*' else mf))", **env)
+
+
+SOF = 'mystic/scipy_optimize.py::'
+contract('C05/NelderMead._SetEvaluationLimits', ['C05'], SOF + 'NelderMeadSimplexSolver._SetEvaluationLimits')(
+    lambda h: _limits_variant(h, SOF + 'NelderMeadSimplexSolver', 200, 200))
 
 
 @contract('C05/SetEvaluationLimits', ['C05'], A + 'AbstractSolver.SetEvaluationLimits')
@@ -253,3 +271,5 @@ def best_getters(h):
         h.check('best-defaults-to-member-0', 'same(a, p0) and b == e0', a=h.getattr(s, 'bestSolution'), b=h.getattr(s, 'bestEnergy'),
                 p0=h.ev('p[0]', p=h.field(s, 'population')), e0=h.ev('e[0]', e=h.field(s, 'popEnergy')))
     h.check('Solution()-is-bestSolution', 'same(a, b)', a=h.call(h.getattr(s, 'Solution')), b=h.getattr(s, 'bestSolution'))
+contract('C05/Powell._SetEvaluationLimits', ['C05'], SOF + 'PowellDirectionalSolver._SetEvaluationLimits')(
+    lambda h: _limits_variant(h, SOF + 'PowellDirectionalSolver', 1000, 1000))
